@@ -63,6 +63,7 @@ package fptower
 
 //@ func E3.MulByElement
 //@ layer ring fp.Element
+//@ option interior
 //@ ensures[value] vec(z) == vscale(old(*y), old(vec(x)))
 //@ ensures[result] result == z
 //@ modifies z
@@ -70,6 +71,7 @@ package fptower
 
 //@ func E3.MulBy01
 //@ layer ring fp.Element
+//@ option interior
 //@ ensures[value] vec(z) == qmul(NR_Element, old(vec(z)), svec(3, 0, old(*c0), 1, old(*c1)))
 //@ ensures[result] result == z
 //@ modifies z
@@ -77,6 +79,7 @@ package fptower
 
 //@ func E3.MulBy1
 //@ layer ring fp.Element
+//@ option interior
 //@ ensures[value] vec(z) == qmul(NR_Element, old(vec(z)), svec(3, 1, old(*c1)))
 //@ ensures[result] result == z
 //@ modifies z
@@ -84,6 +87,7 @@ package fptower
 
 //@ func E3.MulBy12
 //@ layer ring fp.Element
+//@ option interior
 //@ ensures[value] vec(z) == qmul(NR_Element, old(vec(z)), svec(3, 1, old(*b1), 2, old(*b2)))
 //@ ensures[result] result == z
 //@ modifies z
@@ -153,6 +157,7 @@ package fptower
 
 //@ func E6.MulBy014
 //@ layer ring fp.Element
+//@ option interior
 //@ ensures[value] tvec(z) == t12mul(NR_Element, old(tvec(z)), svec(6, 0, old(*c0), 1, old(*c1), 4, old(*c4)))
 //@ ensures[result] result == z
 //@ modifies z
@@ -160,6 +165,7 @@ package fptower
 
 //@ func E6.MulBy01
 //@ layer ring fp.Element
+//@ option interior
 //@ ensures[value] tvec(z) == t12mul(NR_Element, old(tvec(z)), svec(6, 0, old(*c0), 1, old(*c1), 4, 1))
 //@ ensures[result] result == z
 //@ modifies z
@@ -179,6 +185,7 @@ package fptower
 
 //@ func E6.MulBy01245
 //@ layer ring fp.Element
+//@ option interior
 //@ ensures[value] tvec(z) == t12mul(NR_Element, old(tvec(z)), svec(6, 0, old(x[0]), 1, old(x[1]), 2, old(x[2]), 4, old(x[3]), 5, old(x[4])))
 //@ ensures[result] result == z
 //@ modifies z
